@@ -262,7 +262,8 @@ class Rejection(Sampler):
         # noinspection PyTypeChecker
 
         if s['samples']:
-            accepted = s['samples'][self.discrepancy_name] <= t
+            # Rows that do not hold a simulated draw have distance inf: leave them out
+            accepted = s['samples'][self.discrepancy_name][:s['n_filled']] <= t
             n_acceptable = np.sum(np.all(np.atleast_2d(np.transpose(accepted)), axis=0))
         else:
             n_acceptable = 0
